@@ -325,7 +325,7 @@ class LazyMixin:
 
     def _extremum(self, args, kw, st, n, is_min):
         a = args[0]
-        if isinstance(a, tuple) and a and a[0] == "sview":
+        if isinstance(a, tuple) and a and isinstance(a[0], str) and a[0] == "sview":
             a = self.sview_to_lazy(a)
         axis = kw.get("axis", args[1] if len(args) > 1 else None)
         shape = list(shape_of(a))
@@ -507,11 +507,17 @@ class LazyMixin:
                 f = ""
             if f == "enumerate":
                 it = self.eval(s.iter, st)
+        if it is None and isinstance(s.iter, ast.Name) and isinstance(st.vars.get(s.iter.id), SChunks) and isinstance(s.target, ast.Name):
+            # for chunk in chunks:  ==  for k<ordinal> in range(len(chunks)): chunk = chunks[k<ordinal>]   (ghost counter)
+            it = ("enumerate_chunks", st.vars[s.iter.id], "k%d" % self.loop_ordinals.get(id(s), 0))
         if isinstance(it, tuple) and it and it[0] == "enumerate_chunks":
             chunks = it[1]
-            if not (isinstance(s.target, ast.Tuple) and len(s.target.elts) == 2 and all(isinstance(e, ast.Name) for e in s.target.elts)):
+            if len(it) == 3:
+                jname, cname = it[2], s.target.id
+            elif not (isinstance(s.target, ast.Tuple) and len(s.target.elts) == 2 and all(isinstance(e, ast.Name) for e in s.target.elts)):
                 raise Unsupported("enumerate target (line %d)" % s.lineno)
-            jname, cname = s.target.elts[0].id, s.target.elts[1].id
+            else:
+                jname, cname = s.target.elts[0].id, s.target.elts[1].id
             # for j in range(len(chunks)): c = chunks[j]; body
             bind = ast.Assign(targets=[ast.Name(id=cname, ctx=ast.Store())],
                               value=ast.Subscript(value=_Lit(chunks), slice=ast.Name(id=jname, ctx=ast.Load()), ctx=ast.Load()),
